@@ -803,6 +803,21 @@ class ExprMixin(object):
         idx = self.eval(st, e.slice)
         return self.getitem(st, base, idx, line)
 
+    def note_distinct_read(self, st, r, pos, n, t):
+        """the list was declared pairwise distinct (precondition all_distinct): instances for this read position
+        against every position read before"""
+        dl = getattr(self, 'distinct_lists', None)
+        if not dl:
+            return
+        key = simp(r).get_id()
+        if key not in dl:
+            return
+        for (pos2,) in dl[key]:
+            self.assumes.append(z3.Implies(And(0 <= pos, pos < n, 0 <= pos2, pos2 < n, pos != pos2),
+                                           t != self.list_elem(st, r, pos2)))
+        if not any(pos.eq(p2) for (p2,) in dl[key]):
+            dl[key].append((pos,))
+
     def getitem(self, st, base, idx, line=0):
         if isinstance(base, PyTuple):
             ci = self.const_int(idx)
@@ -846,6 +861,7 @@ class ExprMixin(object):
             self.raise_exit(st, IndexError, Or(i >= n, i < -n), line)
             pos = z3.If(i < 0, n + i, i)
             t = self.list_elem(st, r, pos)
+            self.note_distinct_read(st, r, pos, n, t)
             es = h.elem
             if isinstance(es, (list, tuple)):
                 ci = self.const_int(idx)
